@@ -48,6 +48,17 @@ class Ctx:
             chunk = max(1, len(items) // (self.ncpu * 8))
         return self.pool().map(fn, items, chunk)
 
+    def pmap_fresh(self, fn, items):
+        """like pmap, but every item runs in a process forked from this (pristine) one for that item alone: whatever the code
+        under test leaves behind in the interpreter is seen by the later cases of the same item and by nothing else, so a
+        result depends on its item only (and replays from it)"""
+        items = list(items)
+        if not items:
+            return []
+        ctx = multiprocessing.get_context("fork")
+        with ctx.Pool(max(1, min(self.ncpu, len(items))), maxtasksperchild=1) as pool:
+            return pool.map(fn, items, 1)
+
     def pimap(self, fn, items, chunk=1):
         """unordered, lazy"""
         items = list(items)
@@ -193,3 +204,30 @@ def guarded(fn, *a, pair=False):
         bad = [("answer-not-of-documented-shape:%s" % type(e).__name__,
                 "the oracle could not read psutil's answer: %s: %s at %s (case %r)" % (type(e).__name__, e, where, a[0] if a else None))]
         return (bad, "shape") if pair else bad
+
+
+def add_histories(viols, cases, n, enc=list):
+    """Cases of one chunk run one after the other in ONE worker interpreter (as calls of a long-lived program do).  A
+    violation that depends on what earlier cases left behind inside psutil does not replay from its own case alone: the
+    first witnesses of every cause also carry the cases that preceded them in their worker (`alt_case`), which the runner
+    uses (shortest suffix first) when the single case does not reproduce."""
+    per_cause = {}
+    for v in viols:
+        i = v.pop("_idx", None)
+        if i is None:
+            continue
+        k = per_cause.get(v["cause"], 0)
+        if k >= 2:
+            continue
+        per_cause[v["cause"]] = k + 1
+        start = i // n * n
+        if i > start:
+            v["alt_case"] = {"history": [enc(c) for c in cases[start:i + 1]]}
+    return viols
+
+
+def history_of(case):
+    """-> list of encoded cases to run in order (a plain case is a history of one)"""
+    if isinstance(case, dict) and "history" in case:
+        return list(case["history"])
+    return [case]
